@@ -160,6 +160,11 @@ Required(ctx, ch) ==
       mine == {ch[j].v.type : j \in 1..Len(ch)}
       kept == {t \in {prev[j] : j \in 1..Len(prev)} : t \notin mine}
   IN D([x \in DOMAIN d.m \ kept |-> d.m[x]])
+\* a type of the pre-existing context.variable equals the type of a chain member: the statement
+\* ("pairwise distinct types") does not say what the compose list is then; only the rest of the
+\* description (and the agreement of Compose and Sequence) is demanded
+Collides(ctx, ch) == \E j \in 1..Len(PrevTypes(ctx)), i \in 1..Len(ch) : PrevTypes(ctx)[j] = ch[i].v.type
+RequiredC(ctx, ch) == IF Collides(ctx, ch) THEN Without(Required(ctx, ch), "compose") ELSE Required(ctx, ch)
 Contains(obs, req) == IsD(obs) /\ \A x \in DOMAIN req.m : x \in DOMAIN obs.m /\ obs.m[x] = req.m[x]
 
 \* what the last variable of a chain describes itself with
